@@ -331,6 +331,51 @@ BOOL = Bool()
 F32, F64 = Float(32), Float(64)
 
 
+def mutants(T, v):
+    """values of type T that differ from v in exactly one leaf (or in the variant)"""
+    if isinstance(T, Int):
+        hi = (1 << (min(T.bits, 63) - 1)) - 1
+        yield v + 1 if v < hi else v - 1
+    elif isinstance(T, Bool):
+        yield not v
+    elif isinstance(T, Float):
+        yield v + 1
+    elif isinstance(T, Arr):
+        for i in range(T.n):
+            for m in mutants(T.sub, v[i]):
+                yield v[:i] + [m] + v[i + 1:]
+    elif isinstance(T, Struct):
+        for n, t in T.fields:
+            for m in mutants(t, v[n]):
+                d = dict(v)
+                d[n] = m
+                yield d
+    elif isinstance(T, Enum):
+        t = next(t for n, t, _ in T.variants if n == v[0])
+        if t is not None:
+            for m in mutants(t, v[1]):
+                yield (v[0], m)
+        for n, _, _ in T.variants:
+            if n != v[0]:
+                yield T.val(17, n)
+    elif isinstance(T, Opt):
+        if v[0] == "some":
+            for m in mutants(T.sub, v[1]):
+                yield ("some", m)
+            yield ("nil",)
+        else:
+            yield T.val(5, "some")
+    elif isinstance(T, ErrU):
+        if v[0] == "ok":
+            for m in mutants(T.sub, v[1]):
+                yield ("ok", m)
+            yield T.val(5, "err:" + T.err.shapes()[0])
+        else:
+            for m in mutants(T.err, v[1]):
+                yield ("err", m)
+            yield T.val(5, "ok")
+
+
 def all_decls(tys):
     seen = {}
     for t in tys:
